@@ -57,6 +57,22 @@ def run(chk):
                 variants.append((Scn(scn.with_xq, scn.with_class, scn.svcs, scn.rules, scn.timeout, items, "stray reply inserted at %d" % pos), bi, pos, line))
                 chk.hist("stray:" + ("stale" if any(line.split(' ')[3] == t for t, _ in states[pos][1]) else "other"))
     dbase = run_daemons(impl, base)
+    # replies inside the generated histories themselves: where the model (for which the no-op theorem is proved) says a reply
+    # line names no awaited (instance, service), the daemon must stay silent too
+    mbase = run_model(drv, base)
+    for scn, d, m in zip(base, dbase, mbase):
+        if len(chk.violations) >= 3: break
+        for i, it in enumerate(scn.items):
+            toks = it[1].decode('latin1').split(' ')
+            if len(toks) > 1 and toks[1] in ('X', 'x') and i < len(d.steps) and i < len(m):
+                if not m[i][0] and d.steps[i][0]:
+                    chk.violation("the reply '%s' names no awaited (instance, service) - malformed tag, stale serial, unknown or not-awaited service - yet the daemon acted on it: %r" % (it[1].decode('latin1'), d.steps[i][0]),
+                                  replay_text(scn, d, m), "stray-in-history:" + toks[3] if len(toks) > 3 else "stray")
+                    break
+                if m[i] != d.steps[i]:
+                    break
+            elif i < len(d.steps) and i < len(m) and m[i] != d.steps[i]:
+                break
     dvar = run_daemons(impl, [v[0] for v in variants])
     mvar = run_model(drv, [v[0] for v in variants])
     distinct = set()
